@@ -31,6 +31,8 @@ BUILTIN_SHIMS = {
     "isinstance": "isinstance_",
     "set": "set_",
     "range": "range_",
+    "max": "max_",
+    "min": "min_",
 }
 # (module alias, attribute) -> shim
 ATTR_SHIMS = {
